@@ -26,15 +26,17 @@ TRANSLATORS = ['pow10_table']
 LEAN_MODULES = ['Pyc.Model.NumText']
 META = dict(
     level_text=('Proof (numeric clause and element level) + exploration of whole documents. Pyc/Props/C01.lean proves that rounding to a locally '
-                'uniform set is stable under moving towards the rounded value (round_stable) and from it the fixed point of '
-                'text -> float32 -> text -> float32 from the first reloaded generation on (model_fixed_point), with the points where float32 spacing '
-                'changes (all 277 powers of two) and the negative powers of ten settled by kernel-evaluated tables; the element-level part rests on the '
+                'uniform set is stable under moving towards the rounded value (round_stable), that the float32 values form such a grid around every value that is not a power of two '
+                '(localGrid_f32), and from both the fixed point of text -> float32 -> text -> float32 from the first reloaded generation on for every float32 value '
+                '(float32_model_fixed_point), with the points where float32 spacing changes (all 277 powers of two) and the negative powers of ten settled by kernel-evaluated tables; the element-level part rests on the '
                 'C02/C03 theorems (saved tree depends on the current model only; saving is idempotent). The relations used are tied to libc/numpy on every '
                 'run by a differential check; whole-document round trips and the byte-level fixed point are evaluated on the implementation.'),
     level_note=('Trusted: Lean kernel + standard axioms; Pyc/Model/NumText.lean as the meaning of "%.7g" and of float32 parsing (checked against the runtime each run); '
-                'PARTIAL: LocalGrid (equal spacing of float32 values around a non-power-of-two value, of 7-digit decimals around a non-power-of-ten) is a hypothesis of the '
-                'theorems, not yet derived from the set definitions; there is no Lean model of the whole loader, so "reloaded model == model" for whole documents '
-                'is established by the oracle on generated and shipped documents, not by a theorem. Known finding: documents in a non-default namespace load but cannot be written.'),
+                'the equal spacing of float32 values around every non-power-of-two value is PROVED (Pyc/Proofs/Float32Grid.lean: localGrid_f32, interior_of_f32), so '
+                'float32_model_fixed_point is unconditional on the binary side; PARTIAL: the equal spacing of 7-digit decimals (needed only for the stronger statement that the very first '
+                'written text is already final) remains a hypothesis of text_fixed_point; the executable relation isBin24 of the model and the set IsF32 of the proof are two renderings of '
+                'the float32 format tied only by the correspondence run; there is no Lean model of the whole loader, so "reloaded model == model" for whole documents '
+                'is established by the oracle on generated and shipped documents, not by a theorem.'),
     technique='Lean 4 theorems on rounding stability over ordered fields + kernel-evaluated tables + correspondence of the rounding relations with the runtime + whole-document round-trip oracle',
 )
 
